@@ -60,8 +60,13 @@ func (k *c40) check(o *stepObs) {
 		return
 	}
 	name := opNames[c.kind]
-	if c.kind == opMove && c.inclDesc {
-		name += "+desc"
+	if c.kind == opMove {
+		if t, ok := x.pre(c.bd).els[c.elem]; ok && t.parent == c.dest {
+			name = "move-same-scope"
+		}
+		if c.inclDesc {
+			name += "+desc"
+		}
 	}
 	if o.deltasErr != nil {
 		x.label("deltas-refused-edit-ok:" + name)
